@@ -135,8 +135,8 @@ string XMLWriter::getChanPriority() const
  * an with the "data" content. */
 void XMLWriter::label(const char* kind, string data, int x, int y)
 {
-    if (data == "1") {
-        return;
+    if (data == "1" && strcmp(kind, "exponentialrate") != 0) {
+        return;  // a trivially true guard/invariant or a neutral update/weight
     }
     // TODO: fix the strg conversion instead of manipulating strings
     if (data.substr(0, 5) == "1 && ") {
